@@ -243,12 +243,12 @@ class Seam:
         self.saved = iterutils.random
         self.sr = ScriptedRandom()
         iterutils.random = self.sr
-        self.old_handler = signal.signal(signal.SIGALRM, _on_alarm)
+        self.old_handler = signal.signal(signal.SIGVTALRM, _on_alarm)
         return self
 
     def __exit__(self, *a):
-        signal.setitimer(signal.ITIMER_REAL, 0)
-        signal.signal(signal.SIGALRM, self.old_handler)
+        signal.setitimer(signal.ITIMER_VIRTUAL, 0)
+        signal.signal(signal.SIGVTALRM, self.old_handler)
         self.iu.random = self.saved
         return False
 
@@ -260,11 +260,11 @@ def observe(seam, fn, p, draws, pull):
     kw = {'count': p['count'], 'factor': p['factor'], 'jitter': p['jitter']}
     vals = []
     try:
-        signal.setitimer(signal.ITIMER_REAL, HANG_S)
+        signal.setitimer(signal.ITIMER_VIRTUAL, HANG_S)
         try:
             if fn == 'backoff':
                 ret = seam.iu.backoff(p['start'], p['stop'], **kw)
-                signal.setitimer(signal.ITIMER_REAL, 0)
+                signal.setitimer(signal.ITIMER_VIRTUAL, 0)
                 return 'done', list(ret)
             it = seam.iu.backoff_iter(p['start'], p['stop'], **kw)
             status = 'more'
@@ -274,7 +274,7 @@ def observe(seam, fn, p, draws, pull):
                 except StopIteration:
                     status = 'done'
                     break
-            signal.setitimer(signal.ITIMER_REAL, 0)
+            signal.setitimer(signal.ITIMER_VIRTUAL, 0)
             if status == 'more':
                 try:
                     it.close()
@@ -282,7 +282,7 @@ def observe(seam, fn, p, draws, pull):
                     pass
             return status, vals
         finally:
-            signal.setitimer(signal.ITIMER_REAL, 0)
+            signal.setitimer(signal.ITIMER_VIRTUAL, 0)
     except Hang:
         global _hangs
         _hangs += 1
@@ -528,7 +528,7 @@ def run(ctx):
         "count='repeat' is observed for its first %d values (8 in the jitter and menu parts)" % REPEAT_ITEMS,
         'with jitter and the default count only termination and the per-position bounds are demanded '
         '(the statement fixes the last value only for the un-jittered sequence)',
-        'a call that does not return within %gs of wall time is reported as a hang (never reached otherwise)' % HANG_S,
+        'a call that does not return within %gs of CPU time is reported as a hang (never reached otherwise)' % HANG_S,
     ]
 
 
